@@ -121,4 +121,84 @@ theorem fold_rest (k : Nat) (rest : List (Nat × List Line)) :
     rw [ih p b ((q, bq) :: tl) (k :: gaps) stray hwfr hadj']
     simp [List.replicate_succ', List.append_assoc]
 
+/-! ### `--heading` -/
+
+theorem hfold_blanks (k : Nat) (st : HPS) (hk : 0 < k) :
+    (List.replicate k HLine.blank).foldl hstep st = { st with pending := st.pending + k, isOpen := false } := by
+  induction k generalizing st with
+  | zero => omega
+  | succ k ih =>
+    simp only [List.replicate_succ, List.foldl_cons, hstep]
+    cases k with
+    | zero => simp
+    | succ k' =>
+      rw [ih _ (by omega)]
+      simp [Nat.add_assoc, Nat.add_comm 1]
+
+theorem hfold_bodies (tl : List HLine) (hall : ∀ l ∈ tl, l.isBody = true) :
+    ∀ (p : Nat) (acc : List HLine) (rest : List (Nat × List HLine)) (gaps : List Nat) (j stray : Nat) (bad : Bool),
+      tl.foldl hstep ⟨(p, acc) :: rest, gaps, j, true, stray, bad⟩ = ⟨(p, acc ++ tl) :: rest, gaps, j, true, stray, bad⟩ := by
+  induction tl with
+  | nil => intro p acc rest gaps j stray bad; simp
+  | cons l tl ih =>
+    intro p acc rest gaps j stray bad
+    have hl := hall l List.mem_cons_self
+    have htl : ∀ l ∈ tl, l.isBody = true := fun x hx => hall x (List.mem_cons_of_mem _ hx)
+    cases l with
+    | head q => simp [HLine.isBody] at hl
+    | blank => simp [HLine.isBody] at hl
+    | body x =>
+      simp only [List.foldl_cons, hstep, if_true]
+      rw [ih htl]
+      simp [List.append_assoc]
+
+theorem hfold_block (p : Nat) (b : List HLine) (hwf : wfHBlock p b = true) (st : HPS) :
+    b.foldl hstep st =
+      match st.blocks with
+      | [] => { st with blocks := [(p, b)], stray := st.pending, pending := 0, isOpen := true }
+      | _ :: _ => { st with blocks := (p, b) :: st.blocks, gaps := st.pending :: st.gaps, pending := 0, isOpen := true } := by
+  match b, hwf with
+  | .head q :: tl, hwf =>
+    simp only [wfHBlock, Bool.and_eq_true, beq_iff_eq] at hwf
+    obtain ⟨⟨hq, _⟩, hall⟩ := hwf
+    subst hq
+    have htl : ∀ l ∈ tl, l.isBody = true := List.all_eq_true.mp hall
+    cases hb : st.blocks with
+    | nil =>
+      simp only [List.foldl_cons, hstep, hb]
+      rw [hfold_bodies tl htl]
+      simp
+    | cons top rest =>
+      simp only [List.foldl_cons, hstep, hb]
+      rw [hfold_bodies tl htl]
+      simp
+
+theorem joinHLines_cons (k : Nat) (p : Nat) (b : List HLine) (rest : List (Nat × List HLine)) :
+    joinHLines k ((p, b) :: rest) = b ++ rest.flatMap (fun pb => List.replicate k HLine.blank ++ pb.2) := by
+  induction rest generalizing p b with
+  | nil => simp [joinHLines]
+  | cons pb rest ih =>
+    obtain ⟨q, c⟩ := pb
+    simp only [joinHLines, List.flatMap_cons]
+    rw [ih q c]
+    simp [List.append_assoc]
+
+theorem hfold_rest (k : Nat) (hk : 0 < k) (rest : List (Nat × List HLine)) :
+    ∀ (q : Nat) (bq : List HLine) (tl : List (Nat × List HLine)) (gaps : List Nat) (stray : Nat) (o : Bool),
+      (∀ pb ∈ rest, wfHBlock pb.1 pb.2 = true) →
+      (rest.flatMap (fun pb => List.replicate k HLine.blank ++ pb.2)).foldl hstep ⟨(q, bq) :: tl, gaps, 0, o, stray, false⟩ =
+        ⟨rest.reverse ++ (q, bq) :: tl, List.replicate rest.length k ++ gaps, 0, (o || !rest.isEmpty), stray, false⟩ := by
+  induction rest with
+  | nil => intro q bq tl gaps stray o _; simp
+  | cons pb rest ih =>
+    intro q bq tl gaps stray o hwf
+    obtain ⟨p, b⟩ := pb
+    have hwfp : wfHBlock p b = true := hwf (p, b) List.mem_cons_self
+    have hwfr : ∀ pb ∈ rest, wfHBlock pb.1 pb.2 = true := fun x hx => hwf x (List.mem_cons_of_mem _ hx)
+    simp only [List.flatMap_cons, List.foldl_append]
+    rw [hfold_blanks k _ hk, hfold_block p b hwfp]
+    simp only [Nat.zero_add]
+    rw [ih p b ((q, bq) :: tl) (k :: gaps) stray true hwfr]
+    simp [List.replicate_succ', List.append_assoc]
+
 end RgVerif.BlockSpec
